@@ -24,6 +24,7 @@ type World struct {
 	PF        *Portfolio
 	SpecDecls map[string]*Decl
 	RepoDir   string
+	Prop      string // property under check: postconditions tagged for other properties only are skipped
 
 	AllocBudget func(e *Exec, st *State) *Term
 	FrameCheck  func(e *Exec, st *State, p *PtrVal)
